@@ -11,6 +11,9 @@
 // predicts the result through its model of the SQL layer and the wrapper layer. Model-free
 // oracles: mutual agreement of the four functions, REPLACE = splice of the reported matches,
 // Go's regexp as reference engine on the common subset, invalid patterns must error.
+// Sequences (seq.go): ONE node over column references / literals evaluated on successive rows, and
+// the same as SQL statements over a table — the per-node compiled-regex / cached-value state;
+// facts_node.go pins the state fields, the cache keys and the per-row recompile shape.
 package main
 
 import (
@@ -1176,5 +1179,9 @@ func extract(a hx.ExtractArgs) error {
 	}
 	lf.Comment("the Regex-interface call of each Eval")
 	lf.DefStringList("wrapperCalls", calls)
+	// 5. per-node state across rows
+	if err := extractNodeFacts(a, lf); err != nil {
+		return err
+	}
 	return lf.Write(a.Out)
 }
